@@ -187,7 +187,7 @@ def language(p) -> Optional[Set[str]]:
     return langs
 
 
-def samples(p, unroll: int = 2, cap: int = 600) -> Optional[Set[str]]:
+def samples(p, unroll: int = 2, cap: int = 600, alphabet: Optional[str] = None) -> Optional[Set[str]]:
     """Texts of an unbounded language with every loop taken at most `unroll` times beyond its minimum (a finite subset of the
     language; every member is a text the pattern matches, so a verdict on a member is a verdict on a real input)."""
     langs: Set[str] = {''}
@@ -196,25 +196,33 @@ def samples(p, unroll: int = 2, cap: int = 600) -> Optional[Set[str]]:
             nxt = {chr(av)}
         elif op is sre_c.IN:
             cs = _in_chars(av)
+            if cs is None and alphabet is not None:
+                cs = {c for c in alphabet if _in_matches(av, ord(c))}
             if cs is None:
                 return None
             nxt = set(sorted(cs)[:3])
+        elif alphabet is not None and op is sre_c.ANY:
+            nxt = set(c for c in alphabet if c != '\n')
+        elif alphabet is not None and op is sre_c.NOT_LITERAL:
+            nxt = set(c for c in alphabet if ord(c) != av)
+        elif alphabet is not None and op is sre_c.CATEGORY:
+            nxt = set(c for c in alphabet if _cat_matches(av, ord(c)))
         elif op is sre_c.BRANCH:
             nxt = set()
             for alt in av[1]:
-                l = samples(alt, unroll, cap)
+                l = samples(alt, unroll, cap, alphabet)
                 if l is None:
                     return None
                 nxt |= l
         elif op is sre_c.SUBPATTERN:
-            l = samples(av[3], unroll, cap)
+            l = samples(av[3], unroll, cap, alphabet)
             if l is None:
                 return None
             nxt = l
         elif op in (sre_c.MAX_REPEAT, sre_c.MIN_REPEAT):
             lo, hi, sub = av
             top = lo + unroll if hi is sre_c.MAXREPEAT else min(hi, lo + unroll)
-            l = samples(sub, unroll, cap)
+            l = samples(sub, unroll, cap, alphabet)
             if l is None:
                 return None
             nxt = set()
@@ -468,6 +476,32 @@ def last_char_can_be_word(p) -> bool:
         if last_char_can_be_word(av[2]):
             return True
         return (av[0] == 0 or _nullable(av[2])) and last_char_can_be_word(items[:-1])
+    return True
+
+
+def last_char_can(p, chars: str) -> bool:
+    """Over-approximation: can a match of p end in one of `chars`?"""
+    items = [it for it in p if it[0] not in (sre_c.AT, sre_c.ASSERT, sre_c.ASSERT_NOT)]
+    if not items:
+        return False
+    op, av = items[-1]
+    if op is sre_c.LITERAL:
+        return chr(av) in chars
+    if op is sre_c.NOT_LITERAL:
+        return any(ord(c) != av for c in chars)
+    if op is sre_c.ANY:
+        return False                # PLY compiles without DOTALL: `.` is never a line break; other chars: see callers
+    if op is sre_c.IN:
+        return any(_in_matches(av, ord(c)) for c in chars)
+    if op is sre_c.CATEGORY:
+        return any(_cat_matches(av, ord(c)) for c in chars)
+    if op is sre_c.BRANCH:
+        return any(last_char_can(a, chars) if len(list(a)) else False for a in av[1]) or \
+            (any(_nullable(a) for a in av[1]) and last_char_can(items[:-1], chars))
+    if op is sre_c.SUBPATTERN:
+        return last_char_can(av[3], chars) or (_nullable(av[3]) and last_char_can(items[:-1], chars))
+    if op in (sre_c.MAX_REPEAT, sre_c.MIN_REPEAT):
+        return last_char_can(av[2], chars) or ((av[0] == 0 or _nullable(av[2])) and last_char_can(items[:-1], chars))
     return True
 
 
